@@ -10,202 +10,241 @@ import (
 // mixed MQTT 3.1.1 / 5 clients; every op kind; virtual-time ticks away from expiry boundaries.
 func init() {
 	hs := func(s string) string { return hx([]byte(s)) }
-	suites["broker"] = suite{gen: func(r *rand.Rand, n int, emit func(string)) {
-		topics := []string{"a", "a/b", "a/b/c", "x", "$SYS/x", "x/y"}
-		filters := []string{"a", "a/b", "a/#", "+/b", "#", "x/+", "a/+/c", "$share/g/a/b", "$share/g/a/#", "a/b#", "$SYS/#"}
-		ids := []string{"c1", "c2", "c3"}
-		for done := 0; done < n; {
-			emit("reset")
-			var caps []string
-			if r.Intn(3) == 0 {
-				caps = append(caps, fmt.Sprintf("maxqos=%d", r.Intn(3)))
-			}
-			if r.Intn(3) == 0 {
-				caps = append(caps, fmt.Sprintf("recvmax=%d", 1+r.Intn(3)))
-			}
-			if r.Intn(4) == 0 {
-				caps = append(caps, "retain=0")
-			}
-			if r.Intn(4) == 0 {
-				caps = append(caps, fmt.Sprintf("sessexp=%d", pick(r, []int{0, 100, 1000})))
-			}
-			if r.Intn(4) == 0 {
-				caps = append(caps, fmt.Sprintf("msgexp=%d", pick(r, []int{0, 100, 1000})))
-			}
-			if r.Intn(6) == 0 {
-				caps = append(caps, fmt.Sprintf("maxclients=%d", 1+r.Intn(3)))
-			}
-			if r.Intn(6) == 0 {
-				caps = append(caps, fmt.Sprintf("maxinflight=%d", 1+r.Intn(3)))
-			}
-			if r.Intn(8) == 0 {
-				caps = append(caps, fmt.Sprintf("maxpid=%d", 2+r.Intn(4)))
-			}
-			if r.Intn(8) == 0 {
-				caps = append(caps, "aliasmax=0")
-			}
-			if r.Intn(10) == 0 {
-				caps = append(caps, "obscure=1")
-			}
-			if r.Intn(12) == 0 {
-				caps = append(caps, pick(r, []string{"auth=none", "auth=deny:c2", "minver=5"}))
-			}
-			emit(strings.TrimSpace("bk.new " + strings.Join(caps, " ")))
-			for i, k := 0, r.Intn(3); i < k; i++ {
-				emit(fmt.Sprintf("bk.acl %s %s %s", hs(pick(r, ids)), hs(pick(r, append(topics, filters...))), pick(r, []string{"r", "w"})))
-			}
-			if r.Intn(6) == 0 {
-				emit(fmt.Sprintf("bk.pubhook %s %s", hs(pick(r, topics)), pick(r, []string{"reject", "ignore", "err"})))
-			}
-			next := 1
-			open := map[int]byte{} // conn -> version
-			connOf := map[string]int{}
-			pid := map[int]int{}
-			l := 10 + r.Intn(40)
-			connect := func() {
-				id := pick(r, ids)
-				ver := pick(r, []byte{4, 5, 5})
-				var kv []string
-				if ver == 5 {
-					if r.Intn(2) == 0 {
-						kv = append(kv, fmt.Sprintf("sei=%d", pick(r, []int{0, 10, 100, 5000})))
-					}
-					if r.Intn(2) == 0 {
-						kv = append(kv, fmt.Sprintf("rm=%d", 1+r.Intn(3)))
-					}
-					if r.Intn(3) == 0 {
-						kv = append(kv, fmt.Sprintf("tam=%d", pick(r, []int{0, 1, 2, 10})))
-					}
+	genBroker := func(sched bool) func(r *rand.Rand, n int, emit func(string)) {
+		return func(r *rand.Rand, n int, emit func(string)) {
+			topics := []string{"a", "a/b", "a/b/c", "x", "$SYS/x", "x/y"}
+			filters := []string{"a", "a/b", "a/#", "+/b", "#", "x/+", "a/+/c", "$share/g/a/b", "$share/g/a/#", "a/b#", "$SYS/#"}
+			ids := []string{"c1", "c2", "c3"}
+			for done := 0; done < n; {
+				emit("reset")
+				var caps []string
+				if r.Intn(3) == 0 {
+					caps = append(caps, fmt.Sprintf("maxqos=%d", r.Intn(3)))
+				}
+				if r.Intn(3) == 0 {
+					caps = append(caps, fmt.Sprintf("recvmax=%d", 1+r.Intn(3)))
 				}
 				if r.Intn(4) == 0 {
-					kv = append(kv, fmt.Sprintf("will=%s:%s:%d:%d:%d", hs(pick(r, topics)), hs("w"+id), r.Intn(3), r.Intn(2), pick(r, []int{0, 0, 50})))
+					caps = append(caps, "retain=0")
 				}
-				n := next
-				next++
-				if old, ok := connOf[id]; ok {
-					delete(open, old)
+				if r.Intn(4) == 0 {
+					caps = append(caps, fmt.Sprintf("sessexp=%d", pick(r, []int{0, 100, 1000})))
 				}
-				emit(strings.TrimSpace(fmt.Sprintf("bk.conn %d %d %d %s %s", n, ver, r.Intn(3)/2, hs(id), strings.Join(kv, " "))))
-				open[n] = ver
-				connOf[id] = n
-			}
-			anyOpen := func() (int, bool) {
-				var ks []int
-				for k := range open {
-					ks = append(ks, k)
-				}
-				if len(ks) == 0 {
-					return 0, false
-				}
-				// deterministic order
-				min := ks[0]
-				for _, k := range ks {
-					if k < min {
-						min = k
-					}
-				}
-				c := ks[0]
-				// pick by index after sorting
-				for i := 0; i < len(ks); i++ {
-					for j := i + 1; j < len(ks); j++ {
-						if ks[j] < ks[i] {
-							ks[i], ks[j] = ks[j], ks[i]
-						}
-					}
-				}
-				c = ks[r.Intn(len(ks))]
-				return c, true
-			}
-			connect()
-			for i := 0; i < l; i++ {
-				done++
-				c, ok := anyOpen()
-				if !ok || r.Intn(9) == 0 {
-					connect()
-					continue
-				}
-				ver := open[c]
-				switch k := r.Intn(32); {
-				case k < 7:
-					var fs []string
-					for j, m := 0, 1+r.Intn(2); j < m; j++ {
-						f := pick(r, filters)
-						if ver == 5 {
-							fs = append(fs, fmt.Sprintf("%s:%d:%d:%d:%d", hs(f), r.Intn(3), r.Intn(4)/3, r.Intn(2), r.Intn(3)))
-						} else {
-							fs = append(fs, fmt.Sprintf("%s:%d", hs(f), r.Intn(3)))
-						}
-					}
-					si := ""
-					if ver == 5 && r.Intn(2) == 0 {
-						si = fmt.Sprintf(" si=%d", 1+r.Intn(5))
-					}
-					pid[c]++
-					emit(fmt.Sprintf("bk.send %d SUBSCRIBE id=%d%s f=%s", c, 100+pid[c], si, strings.Join(fs, ",")))
-				case k < 9:
-					pid[c]++
-					emit(fmt.Sprintf("bk.send %d UNSUBSCRIBE id=%d f=%s", c, 100+pid[c], hs(pick(r, filters))))
-				case k < 18:
-					q := r.Intn(3)
-					id := 1 + r.Intn(4)
-					extra := ""
-					if ver == 5 && r.Intn(4) == 0 {
-						extra += fmt.Sprintf(" me=%d", pick(r, []int{10, 500, 100000}))
-					}
-					if r.Intn(4) == 0 {
-						extra += " r=1"
-					}
-					p := fmt.Sprintf("m%d", done)
-					if r.Intn(10) == 0 {
-						p = ""
-					}
-					if r.Intn(12) == 0 && q > 0 {
-						extra += " d=1"
-					}
-					emit(fmt.Sprintf("bk.send %d PUBLISH q=%d id=%d t=%s p=%s%s", c, q, id, hs(pick(r, topics)), hs(p), extra))
-				case k < 21:
-					emit(fmt.Sprintf("bk.send %d PUBACK id=%d", c, 1+r.Intn(4)))
-				case k < 23:
-					rc := ""
-					if ver == 5 && r.Intn(5) == 0 {
-						rc = " rc=128"
-					}
-					emit(fmt.Sprintf("bk.send %d PUBREC id=%d%s", c, 1+r.Intn(4), rc))
-				case k < 25:
-					emit(fmt.Sprintf("bk.send %d PUBREL id=%d", c, 1+r.Intn(4)))
-				case k < 27:
-					emit(fmt.Sprintf("bk.send %d PUBCOMP id=%d", c, 1+r.Intn(4)))
-				case k < 28:
-					extra := ""
-					if ver == 5 {
-						switch r.Intn(4) {
-						case 0:
-							extra = " rc=4"
-						case 1:
-							extra = fmt.Sprintf(" rc=0 sei=%d", pick(r, []int{0, 20, 7000}))
-						}
-					}
-					emit(fmt.Sprintf("bk.send %d DISCONNECT%s", c, extra))
-					delete(open, c)
-				case k < 29:
-					emit(fmt.Sprintf("bk.drop %d", c))
-					delete(open, c)
-				case k < 30:
-					emit(fmt.Sprintf("bk.tick %s %d", pick(r, []string{"clients", "retained", "inflight", "wills"}), pick(r, []int{5, 55, 300, 3000, 200000})))
-				case k < 31:
-					emit(fmt.Sprintf("bk.ipub %s %s %d %d", hs(pick(r, topics)), hs(fmt.Sprintf("i%d", done)), r.Intn(2), r.Intn(3)))
-				default:
-					if r.Intn(3) > 0 {
-						emit(fmt.Sprintf("bk.isub %d %s", 1+r.Intn(2), hs(pick(r, filters))))
-					} else {
-						emit(fmt.Sprintf("bk.iunsub %d %s", 1+r.Intn(2), hs(pick(r, filters))))
-					}
+				if r.Intn(4) == 0 {
+					caps = append(caps, fmt.Sprintf("msgexp=%d", pick(r, []int{0, 100, 1000})))
 				}
 				if r.Intn(6) == 0 {
-					emit("bk.dump")
+					caps = append(caps, fmt.Sprintf("maxclients=%d", 1+r.Intn(3)))
 				}
+				if r.Intn(6) == 0 {
+					caps = append(caps, fmt.Sprintf("maxinflight=%d", 1+r.Intn(3)))
+				}
+				if r.Intn(8) == 0 {
+					caps = append(caps, fmt.Sprintf("maxpid=%d", 2+r.Intn(4)))
+				}
+				if r.Intn(8) == 0 {
+					caps = append(caps, "aliasmax=0")
+				}
+				if r.Intn(10) == 0 {
+					caps = append(caps, "obscure=1")
+				}
+				if r.Intn(12) == 0 {
+					caps = append(caps, pick(r, []string{"auth=none", "auth=deny:c2", "minver=5"}))
+				}
+				emit(strings.TrimSpace("bk.new " + strings.Join(caps, " ")))
+				for i, k := 0, r.Intn(3); i < k; i++ {
+					emit(fmt.Sprintf("bk.acl %s %s %s", hs(pick(r, ids)), hs(pick(r, append(topics, filters...))), pick(r, []string{"r", "w"})))
+				}
+				if r.Intn(6) == 0 {
+					emit(fmt.Sprintf("bk.pubhook %s %s", hs(pick(r, topics)), pick(r, []string{"reject", "ignore", "err"})))
+				}
+				next := 1
+				open := map[int]byte{} // conn -> version
+				connOf := map[string]int{}
+				pid := map[int]int{}
+				l := 10 + r.Intn(40)
+				var held []int           // connections whose handler is parked before its clean-up (sched variant)
+				idOf := map[int]string{} // conn -> client id
+				forceID := ""
+				connect := func() {
+					id := pick(r, ids)
+					if forceID != "" {
+						id = forceID
+						forceID = ""
+					}
+					ver := pick(r, []byte{4, 5, 5})
+					var kv []string
+					if ver == 5 {
+						if r.Intn(2) == 0 {
+							kv = append(kv, fmt.Sprintf("sei=%d", pick(r, []int{0, 10, 100, 5000})))
+						}
+						if r.Intn(2) == 0 {
+							kv = append(kv, fmt.Sprintf("rm=%d", 1+r.Intn(3)))
+						}
+						if r.Intn(3) == 0 {
+							kv = append(kv, fmt.Sprintf("tam=%d", pick(r, []int{0, 1, 2, 10})))
+						}
+					}
+					if r.Intn(4) == 0 {
+						kv = append(kv, fmt.Sprintf("will=%s:%s:%d:%d:%d", hs(pick(r, topics)), hs("w"+id), r.Intn(3), r.Intn(2), pick(r, []int{0, 0, 50})))
+					}
+					n := next
+					next++
+					if old, ok := connOf[id]; ok {
+						delete(open, old)
+					}
+					emit(strings.TrimSpace(fmt.Sprintf("bk.conn %d %d %d %s %s", n, ver, r.Intn(3)/2, hs(id), strings.Join(kv, " "))))
+					open[n] = ver
+					connOf[id] = n
+					idOf[n] = id
+				}
+				release := func() {
+					if len(held) > 0 {
+						emit(fmt.Sprintf("bk.release %d", held[0]))
+						held = held[1:]
+					}
+				}
+				anyOpen := func() (int, bool) {
+					var ks []int
+					for k := range open {
+						ks = append(ks, k)
+					}
+					if len(ks) == 0 {
+						return 0, false
+					}
+					// deterministic order
+					min := ks[0]
+					for _, k := range ks {
+						if k < min {
+							min = k
+						}
+					}
+					c := ks[0]
+					// pick by index after sorting
+					for i := 0; i < len(ks); i++ {
+						for j := i + 1; j < len(ks); j++ {
+							if ks[j] < ks[i] {
+								ks[i], ks[j] = ks[j], ks[i]
+							}
+						}
+					}
+					c = ks[r.Intn(len(ks))]
+					return c, true
+				}
+				connect()
+				for i := 0; i < l; i++ {
+					done++
+					if len(held) > 0 && r.Intn(3) == 0 {
+						release()
+					}
+					c, ok := anyOpen()
+					if !ok || r.Intn(9) == 0 {
+						connect()
+						continue
+					}
+					ver := open[c]
+					switch k := r.Intn(32); {
+					case k < 7:
+						var fs []string
+						for j, m := 0, 1+r.Intn(2); j < m; j++ {
+							f := pick(r, filters)
+							if ver == 5 {
+								fs = append(fs, fmt.Sprintf("%s:%d:%d:%d:%d", hs(f), r.Intn(3), r.Intn(4)/3, r.Intn(2), r.Intn(3)))
+							} else {
+								fs = append(fs, fmt.Sprintf("%s:%d", hs(f), r.Intn(3)))
+							}
+						}
+						si := ""
+						if ver == 5 && r.Intn(2) == 0 {
+							si = fmt.Sprintf(" si=%d", 1+r.Intn(5))
+						}
+						pid[c]++
+						emit(fmt.Sprintf("bk.send %d SUBSCRIBE id=%d%s f=%s", c, 100+pid[c], si, strings.Join(fs, ",")))
+					case k < 9:
+						pid[c]++
+						emit(fmt.Sprintf("bk.send %d UNSUBSCRIBE id=%d f=%s", c, 100+pid[c], hs(pick(r, filters))))
+					case k < 18:
+						q := r.Intn(3)
+						id := 1 + r.Intn(4)
+						extra := ""
+						if ver == 5 && r.Intn(4) == 0 {
+							extra += fmt.Sprintf(" me=%d", pick(r, []int{10, 500, 100000}))
+						}
+						if r.Intn(4) == 0 {
+							extra += " r=1"
+						}
+						p := fmt.Sprintf("m%d", done)
+						if r.Intn(10) == 0 {
+							p = ""
+						}
+						if r.Intn(12) == 0 && q > 0 {
+							extra += " d=1"
+						}
+						emit(fmt.Sprintf("bk.send %d PUBLISH q=%d id=%d t=%s p=%s%s", c, q, id, hs(pick(r, topics)), hs(p), extra))
+					case k < 21:
+						emit(fmt.Sprintf("bk.send %d PUBACK id=%d", c, 1+r.Intn(4)))
+					case k < 23:
+						rc := ""
+						if ver == 5 && r.Intn(5) == 0 {
+							rc = " rc=128"
+						}
+						emit(fmt.Sprintf("bk.send %d PUBREC id=%d%s", c, 1+r.Intn(4), rc))
+					case k < 25:
+						emit(fmt.Sprintf("bk.send %d PUBREL id=%d", c, 1+r.Intn(4)))
+					case k < 27:
+						emit(fmt.Sprintf("bk.send %d PUBCOMP id=%d", c, 1+r.Intn(4)))
+					case k < 28:
+						extra := ""
+						if ver == 5 {
+							switch r.Intn(4) {
+							case 0:
+								extra = " rc=4"
+							case 1:
+								extra = fmt.Sprintf(" rc=0 sei=%d", pick(r, []int{0, 20, 7000}))
+							}
+						}
+						emit(fmt.Sprintf("bk.send %d DISCONNECT%s", c, extra))
+						delete(open, c)
+					case k < 29:
+						if sched && r.Intn(3) > 0 {
+							// the connection is lost, its handler is parked before the session clean-up; most of the
+							// time the same client id reconnects before the clean-up runs
+							emit(fmt.Sprintf("bk.drophold %d", c))
+							held = append(held, c)
+							delete(open, c)
+							if r.Intn(3) > 0 {
+								forceID = idOf[c]
+								connect()
+							}
+						} else {
+							emit(fmt.Sprintf("bk.drop %d", c))
+							delete(open, c)
+						}
+					case k < 30:
+						emit(fmt.Sprintf("bk.tick %s %d", pick(r, []string{"clients", "retained", "inflight", "wills"}), pick(r, []int{5, 55, 300, 3000, 200000})))
+					case k < 31:
+						emit(fmt.Sprintf("bk.ipub %s %s %d %d", hs(pick(r, topics)), hs(fmt.Sprintf("i%d", done)), r.Intn(2), r.Intn(3)))
+					default:
+						if r.Intn(3) > 0 {
+							emit(fmt.Sprintf("bk.isub %d %s", 1+r.Intn(2), hs(pick(r, filters))))
+						} else {
+							emit(fmt.Sprintf("bk.iunsub %d %s", 1+r.Intn(2), hs(pick(r, filters))))
+						}
+					}
+					if r.Intn(6) == 0 {
+						emit("bk.dump")
+					}
+				}
+				for len(held) > 0 {
+					release()
+				}
+				emit("bk.dump")
 			}
-			emit("bk.dump")
 		}
-	}}
+	}
+	suites["broker"] = suite{gen: genBroker(false)}
+	// the same histories with connection losses whose handler is held before its session clean-up
+	// while other ops (typically a reconnect of the same client id) run: schedules of the old
+	// connection's teardown against the new connection's establishment
+	suites["brokersched"] = suite{gen: genBroker(true)}
 }
